@@ -402,37 +402,52 @@ example : model (.history [.matchD (.succeeded .always), .add ⟨.keep, .keep, .
 which of them swallow the failure with `addErrback`), the arms of `extract_result`, the steps of `_run_user`.
 `TTV.DeferredSkel.matchI / extractI / runUserI` interpret that data over the model. -/
 
+/- The proofs below do not compare the generated terms with fixed reference terms: they EVALUATE the interpreter on the
+generated arms and handlers in each of the three situations a Deferred can be in (the installed pair was called with a value /
+with a failure / not called).  So any source whose arms and handlers mean what the model does is accepted — e.g. mutually
+exclusive arms in another order — and any other source leaves an unsolved goal that shows the state in which it differs.
+(The terms the model was written from are `DeferredSkel.refOdr`, `refSucceeded`, …, with `matchI_ref_*` in
+`TTV/Lemmas/DeferredSkel.lean`.) -/
+
 /-- the model's `has_no_result()` is the interpretation of `_NoResult.match` + `on_deferred_result` as found in the source -/
 theorem C20_src_no_result (d : D) :
     DeferredSkel.matchI Generated.DeferredSrc.onDeferredResult Generated.DeferredSrc.noResult (fun _ => false) d
       = some (matchOp .noResult d) := by
-  have e1 : Generated.DeferredSrc.onDeferredResult = DeferredSkel.refOdr := by decide
-  have e2 : Generated.DeferredSrc.noResult = DeferredSkel.refNoResult := by decide
-  rw [e1, e2]; exact DeferredSkel.matchI_ref_noResult d
+  rcases DeferredSkel.add_cases d captureCb with ⟨r, _, h⟩ | ⟨_, h⟩
+  · cases r <;> simp [DeferredSkel.matchI, matchOp, Generated.DeferredSrc.onDeferredResult, Generated.DeferredSrc.noResult, h,
+      DeferredSkel.firstArm, DeferredSkel.Guard.holds, DeferredSkel.runHandler]
+  · simp [DeferredSkel.matchI, matchOp, Generated.DeferredSrc.onDeferredResult, Generated.DeferredSrc.noResult, h,
+      DeferredSkel.firstArm, DeferredSkel.Guard.holds, DeferredSkel.runHandler]
 
 /-- the model's `succeeded(m)` is the interpretation of `_Succeeded.match`, its handlers and `on_deferred_result` as found
 in the source — for every Deferred state and inner matcher -/
 theorem C20_src_succeeded (vm : VM) (d : D) :
     DeferredSkel.matchI Generated.DeferredSrc.onDeferredResult Generated.DeferredSrc.succeeded (DeferredSkel.innerV vm) d
       = some (matchOp (.succeeded vm) d) := by
-  have e1 : Generated.DeferredSrc.onDeferredResult = DeferredSkel.refOdr := by decide
-  have e2 : Generated.DeferredSrc.succeeded = DeferredSkel.refSucceeded := by decide
-  rw [e1, e2]; exact DeferredSkel.matchI_ref_succeeded vm d
+  rcases DeferredSkel.add_cases d captureCb with ⟨r, _, h⟩ | ⟨_, h⟩
+  · cases r <;> simp [DeferredSkel.matchI, matchOp, Generated.DeferredSrc.onDeferredResult, Generated.DeferredSrc.succeeded, h,
+      DeferredSkel.firstArm, DeferredSkel.Guard.holds, DeferredSkel.runHandler, DeferredSkel.innerV]
+  · simp [DeferredSkel.matchI, matchOp, Generated.DeferredSrc.onDeferredResult, Generated.DeferredSrc.succeeded, h,
+      DeferredSkel.firstArm, DeferredSkel.Guard.holds, DeferredSkel.runHandler]
 
 /-- the model's `failed(m)` is the interpretation of `_Failed.match`, its handlers and `on_deferred_result` as found in
 the source -/
 theorem C20_src_failed (fm : FM) (d : D) :
     DeferredSkel.matchI Generated.DeferredSrc.onDeferredResult Generated.DeferredSrc.failed (DeferredSkel.innerF fm) d
       = some (matchOp (.failed fm) d) := by
-  have e1 : Generated.DeferredSrc.onDeferredResult = DeferredSkel.refOdr := by decide
-  have e2 : Generated.DeferredSrc.failed = DeferredSkel.refFailed := by decide
-  rw [e1, e2]; exact DeferredSkel.matchI_ref_failed fm d
+  rcases DeferredSkel.add_cases d captureCb with ⟨r, _, h⟩ | ⟨_, h⟩
+  · cases r <;> simp [DeferredSkel.matchI, matchOp, Generated.DeferredSrc.onDeferredResult, Generated.DeferredSrc.failed, h,
+      DeferredSkel.firstArm, DeferredSkel.Guard.holds, DeferredSkel.runHandler, DeferredSkel.innerF]
+  · simp [DeferredSkel.matchI, matchOp, Generated.DeferredSrc.onDeferredResult, Generated.DeferredSrc.failed, h,
+      DeferredSkel.firstArm, DeferredSkel.Guard.holds, DeferredSkel.runHandler]
 
 /-- the model's `extract_result` is the interpretation of the arms found in the source -/
 theorem C20_src_extract (d : D) :
     DeferredSkel.extractI Generated.DeferredSrc.extractResult d = some (extractOp d) := by
-  have e : Generated.DeferredSrc.extractResult = DeferredSkel.refExtract := by decide
-  rw [e]; exact DeferredSkel.extractI_ref d
+  rcases DeferredSkel.add_cases d extractCb with ⟨r, _, h⟩ | ⟨_, h⟩
+  · cases r <;> simp [DeferredSkel.extractI, extractOp, Generated.DeferredSrc.extractResult, h, DeferredSkel.firstArm,
+      DeferredSkel.Guard.holds]
+  · simp [DeferredSkel.extractI, extractOp, Generated.DeferredSrc.extractResult, h, DeferredSkel.firstArm, DeferredSkel.Guard.holds]
 
 /-- `SynchronousDeferredRunTest._run_user` is `maybeDeferred`, `addErrback(self._got_user_failure)`, `extract_result` -/
 theorem C20_src_run_user (b : Beh) : DeferredSkel.runUserI Generated.DeferredSrc.runUser b = some (runUser b) := by
